@@ -33,5 +33,19 @@ pub assume_specification<'a, T, B: Ord, F: FnMut(&'a T) -> B>[ <[T]>::binary_sea
                 && (forall|j: int| 0 <= j < i ==> (#[trigger] keys[j]).cmp_spec(b) == core::cmp::Ordering::Less)
                 && (forall|j: int| i <= j < s@.len() ==> (#[trigger] keys[j]).cmp_spec(b) == core::cmp::Ordering::Greater),
         });
+
+// A-std: bool::then_some
+pub assume_specification<T>[ bool::then_some::<T> ](b: bool, t: T) -> (r: Option<T>)
+    ensures r == (if b { Some(t) } else { None::<T> });
+
+// A-std: Option::is_some_and (the closure is a total function of the element)
+pub assume_specification<T, F: FnOnce(T) -> bool>[ Option::<T>::is_some_and ](o: Option<T>, f: F) -> (r: bool)
+    ensures
+        o is None ==> !r,
+        o is Some ==> f.ensures((o->Some_0,), r);
+
+// A-std: slice::from_ref
+pub assume_specification<T>[ core::slice::from_ref::<T> ](t: &T) -> (r: &[T])
+    ensures r@ == seq![*t];
 } // mod stdx
 use stdx::*;
